@@ -501,3 +501,5 @@ func honestSet(b *Byz) map[party.ID]bool {
 	}
 	return m
 }
+
+var c09applied = mut.Result{Op: "replay-under-other-sender"}
